@@ -212,6 +212,18 @@ def gen_task(task):
 
     def add(kind, k, ops):
         cases.append("%s %d %s" % (kind, k, " ".join(ops)))
+        # the tear-down may be started at any node ("next: input starting node or, if null, root node"): small trees get
+        # every resident node as start, larger ones a random one in about a third of the cases
+        ids = [int(re.match(r"[itlg](\d+)", o).group(1)) for o in ops if re.match(r"[itlg]\d+", o)]
+        gone = set(int(o[1:]) for o in ops if re.match(r"d\d+$", o))
+        ids = [i for i in dict.fromkeys(ids) if i not in gone]
+        if not ids:
+            return
+        if len(ids) <= 4:
+            for i in ids:
+                cases.append("%s %d %s s%d" % (kind, k, " ".join(ops), i))
+        elif rng.random() < 0.35:
+            cases.append("%s %d %s s%d" % (kind, k, " ".join(ops), rng.choice(ids)))
 
     if gen == "corpus":
         return corpus_cases()
